@@ -1,123 +1,7 @@
-/-
-  Mux.Ties — side conditions about the facts regenerated from the Go source (`Mux.Generated.Facts`,
-  rewritten by factgen on every check run).  Each theorem is closed by `decide` (kernel evaluation);
-  when the source changes a fact, the corresponding obligation stops checking and the property that
-  relies on it is reported (DESIGN §5.2).
--/
-import Mux.Generated.Facts
-import Mux.Model.Ctx
-namespace Mux.Ties
-open Mux Mux.Facts
-
-/-! ## Constants the model uses -/
-
-theorem indexesSize_tie : Facts.indexesSize = some Mux.indexesSize := by decide
-theorem destroyMaxSize_tie : Facts.destroyMaxSize = some Mux.destroyMaxSize := by decide
-theorem startByte_tie : Facts.startByte = some Mux.startByte.toNat := by decide +kernel
-theorem endByte_tie : Facts.endByte = some Mux.endByte.toNat := by decide +kernel
-theorem separatorByte_tie : Facts.separatorByte = some Mux.separatorByte.toNat := by decide +kernel
-theorem ignoreByte_tie : Facts.ignoreByte = some Mux.ignoreByte.toNat := by decide +kernel
-theorem methodNotAllowed_tie : Facts.methodNotAllowedIsEmpty = true ∧ Mux.mNotAllowed = [] := by decide
-
-/-- The `Methods` table of the source is the model's table, in the same order (the bit of a method
-is its position), and `AnyMethods` cuts off exactly the last three: TRACE, HEAD, OPTIONS. -/
-theorem methods_tie : (Facts.methods.map (fun l => l.map (fun s => s.toUTF8.toList))) = some Mux.methodsTable := by decide +kernel
-theorem anyCut_tie : Facts.anyCut = some 3 ∧ Mux.anyMethods = Mux.methodsTable.take 6 := by decide
-theorem methods_nodup : Mux.methodsTable.Nodup := by decide
-theorem reserved_last : Mux.methodsTable.drop 6 = [Mux.mTRACE, Mux.mHEAD, Mux.mOPTIONS] := by decide
-
-/-- The kind order `String < Interceptor < Regexp < Named` is the order of the Go iota block. -/
-theorem kindOrder_tie : Facts.kindOrder = some ["String", "Interceptor", "Regexp", "Named"] := by decide
-theorem kindRank_tie : Kind.str.rank = 0 ∧ Kind.icpt.rank = 1 ∧ Kind.rx.rank = 2 ∧ Kind.named.rank = 3 := by decide
-
-/-- `node.priority` is `Type*10` plus at most two increments: the kind dominates. -/
-theorem priority_tie : Facts.priorityWeights = some (10, 2) := by decide
-
-/-- Middlewares of a registration come before those of the façade / the router (`slices.Concat(m, x.ms)`). -/
-theorem concatOrder_tie : Facts.concatOrder =
-    [("Router.Handle", "m,r.ms"), ("Prefix.Handle", "m,p.ms"), ("Resource.Handle", "m,r.ms"),
-     ("Prefix.Prefix", "m,p.ms"), ("Prefix.Resource", "m,p.ms")] := by decide
-
-/-! ## C06: lock discipline of the Tree API -/
-
-/-- One pass over the events of an API call: every access to shared tree state lies inside a
-critical section, writes inside a write section, acquisitions are not nested (RWMutex is not
-re-entrant), and there is exactly ONE critical section (so that the call is atomic). -/
-def disciplinedFrom : Option Bool → Nat → List LockEv → Bool
-  | st, n, [] => st.isSome ∧ n = 1 ∨ (st.isNone ∧ n = 1)
-  | none, n, .acqR :: es => disciplinedFrom (some false) (n + 1) es
-  | none, n, .acqW :: es => disciplinedFrom (some true) (n + 1) es
-  | some _, _, .acqR :: _ => false
-  | some _, _, .acqW :: _ => false
-  | _, n, .rel :: es => disciplinedFrom none n es
-  | none, _, .read _ :: _ => false
-  | none, _, .write _ :: _ => false
-  | some w, n, .read _ :: es => disciplinedFrom (some w) n es
-  | some true, n, .write _ :: es => disciplinedFrom (some true) n es
-  | some false, _, .write _ :: _ => false
-
-def Disciplined (es : List LockEv) : Bool := disciplinedFrom none 0 es
-
-/-- The API the property names: Handle/Add, Remove, Clean, Routes, URL, Handler (ServeHTTP), and the
-node helper that handlers call outside of any lock. -/
-def lockedApi : List String := ["Tree.Add", "Tree.Remove", "Tree.Clean", "Tree.Routes", "Tree.URL", "Tree.Handler", "node.methodIndexEntity"]
-
-def shapeOf (f : String) : Option (List LockEv) := (Facts.lockShapes.find? (·.1 = f)).bind (·.2)
-
-theorem C06_discipline : ∀ f ∈ lockedApi, (shapeOf f).map Disciplined = some true := by decide
-
-/-- Writers take the write lock, readers the read lock. -/
-def firstAcq : List LockEv → Option Bool
-  | [] => none
-  | .acqW :: _ => some true
-  | .acqR :: _ => some false
-  | _ :: es => firstAcq es
-theorem C06_modes :
-    (shapeOf "Tree.Add").bind firstAcq = some true ∧ (shapeOf "Tree.Remove").bind firstAcq = some true ∧
-    (shapeOf "Tree.Clean").bind firstAcq = some true ∧ (shapeOf "Tree.Routes").bind firstAcq = some false ∧
-    (shapeOf "Tree.URL").bind firstAcq = some false ∧ (shapeOf "Tree.Handler").bind firstAcq = some false := by decide
-
-/-- `AllowHeader`/`Methods` only delegate to the locked helper. -/
-theorem C06_helpers : shapeOf "node.AllowHeader" = some [.read "node.methodIndexEntity"] ∧
-    shapeOf "node.Methods" = some [.read "node.methodIndexEntity"] := by decide
-
-/-! ## C07: no shared mutable state between instances; the serve path is read-only -/
-
-/-- Every package-level variable is never mutated after initialisation, or is the `sync.Pool`, or is
-only touched under a package-level lock. -/
-theorem C07_globals : ∀ g ∈ Facts.globals, g.mutatedIn = [] ∨ g.isSyncPool = true ∨ g.guarded = true := by decide
-
-/-- No function statically reachable from `Router.ServeHTTP` / `Group.ServeHTTP` (matcher
-combinators included) writes to router, tree, node, segment, CORS, matcher or group state. -/
-theorem C07_readonly : Facts.serveWrites = [] := by decide
-
-/-- The serve path is what the model mirrors: dispatch, CORS, matchers, the context. -/
-theorem C07_reach : ∀ f ∈ ["Router.ServeHTTP", "Router.serveContext", "Tree.Handler", "node.matchChildren", "Segment.Match",
-    "cors.handle", "Group.ServeHTTP", "Hosts.Match", "pathVersion.Match", "headerVersion.Match"], f ∈ Facts.serveReach := by decide
-
-/-! ## C05: inventory of fault sites the model mirrors with explicit faults -/
-
-/-- (index expressions, slice expressions, type assertions, panic calls) per function, as they were
-when the model's `Err.fault` sites were written. A new unchecked site changes a count. -/
-theorem C05_faultSites : Facts.faultSites = [
-    ("internal/syntax.Interceptors.NewSegment", some (3, 8, 0, 0)),
-    ("internal/syntax.Interceptors.Split", some (4, 0, 0, 0)),
-    ("internal/syntax..splitString", some (0, 3, 0, 0)),
-    ("internal/syntax.Segment.cleanName", some (1, 1, 0, 0)),
-    ("internal/syntax.Segment.Match", some (5, 8, 0, 0)),
-    ("internal/syntax..longestPrefix", some (3, 0, 0, 0)),
-    ("internal/syntax.Segment.Split", some (0, 2, 0, 0)),
-    ("internal/syntax.Segment.Valid", some (2, 0, 0, 0)),
-    ("internal/tree.node.matchChildren", some (4, 0, 0, 0)),
-    ("internal/tree.node.buildIndexes", some (2, 0, 0, 0)),
-    ("internal/tree.node.checkAmbiguous", some (1, 2, 0, 0)),
-    ("internal/tree.Tree.Handler", some (3, 0, 0, 0)),
-    (".Hosts.Match", some (0, 3, 0, 0)),
-    ("..validOptionalPort", some (1, 1, 0, 0)),
-    (".pathVersion.Match", some (0, 1, 0, 0)),
-    ("..NewPathVersion", some (3, 0, 0, 1)),
-    (".headerVersion.Match", some (1, 0, 0, 0)),
-    (".cors.handle", some (0, 0, 0, 0)),
-    (".cors.headerIsAllowed", some (0, 0, 0, 0))] := by decide
-
-end Mux.Ties
+/- Umbrella: all regenerated-fact obligations (one module per property family, so that a changed fact only
+   stops the obligations of the properties that rely on it). -/
+import Mux.Ties.Consts
+import Mux.Ties.C05
+import Mux.Ties.C06
+import Mux.Ties.C07
+import Mux.Ties.C09
